@@ -66,6 +66,10 @@ def gen(seed, run, tier='quick'):
     kinds = list(w)
     weights = [w[k] for k in kinds]
     n_ops = rng.randrange(4, (70 if tier == 'thorough' else MAX_OPS) + 1)
+    if rng.random() < 0.02:
+        # a long-lived process: a few runs are several times longer than
+        # the rest (bounded caches evict, counters grow)
+        n_ops = rng.randrange(120, 200)
     ops = []
     for _ in range(rng.choice([1, 2, 2])):
         ops.append(['base_type'] + [rng.randrange(1 << 16) for _ in range(4)])
